@@ -333,9 +333,17 @@ def keyed_laws(arr: list[Any], key: str, out: V) -> None:
     if all(isinstance(x, dict) for x in arr):
         m = call("map", arr, key)
         if m[0] == "ok":
-            got = [None if (x is None or type(x).__name__ == "_Null") else x for x in m[1]]
+            got = m[1]
             if not same(got, [_get(x, key) for x in arr]):
                 out.append(("map-by-definition", [arr, key], [_get(x, key) for x in arr], got))
+            # what map returns is a plain array: compact drops its nils and json can write it
+            cm = call("compact", m[1])
+            if cm[0] == "ok" and not same(cm[1], [v for v in (_get(x, key) for x in arr) if v is not None]):
+                out.append(("compact-of-map-drops-the-missing", [arr, key], [v for v in (_get(x, key) for x in arr) if v is not None], cm[1]))
+            for f2 in ("json", "compact | json", "uniq | json", "reverse | json", "first | json"):
+                jm = render("{{ arr | map: '" + key + "' | " + f2 + " }}", arr=arr)
+                if jm[0] != "ok":
+                    out.append((f"map-result-is-a-plain-array:{f2.split(' ')[0]}", [arr, key], "renders", jm))
         # string-key form == lambda form, through templates
         for f, extra in (("map", ""), ("where", ""), ("reject", ""), ("find", ""), ("find_index", ""), ("has", ""), ("sort", ""), ("sort_natural", ""),
                          ("sort_numeric", ""), ("uniq", ""), ("compact", ""), ("sum", "")):
